@@ -739,7 +739,7 @@ impl Prop for C14 {
         let files = tg::corpus().len() as u64;
         let grid = (WIDTHS.len() * INDENTS.len()) as u64;
         let (m, s) = match tier {
-            Tier::Quick => (7_000, 6_000),
+            Tier::Quick => (40_000, 40_000),
             Tier::Thorough => (500_000, 500_000),
         };
         vec![
